@@ -147,7 +147,10 @@ def main():
     FIXED = [(Fr(1), Fr(0), Fr(0)), (Fr(0), Fr(1), Fr(0)), (Fr(0), Fr(0), Fr(1)),      # corners
              (H, H, Fr(0)), (Fr(0), H, H), (H, Fr(0), H), (Q, 3 * Q, Fr(0)), (Fr(0), Q, 3 * Q), (3 * Q, Fr(0), Q),  # edges
              (Q, H, Q), (H, Q, Q), (Fr(1, 8), Fr(5, 8), Q),                                # dyadic interior
-             (Fr(-1, 2), Fr(3, 4), Fr(3, 4)), (Fr(5, 4), Fr(-1, 4), Fr(0)), (Fr(1, 2), Fr(1, 2), Fr(1, 2))]  # outside / not summing to 1
+             (Fr(-1, 2), Fr(3, 4), Fr(3, 4)), (Fr(5, 4), Fr(-1, 4), Fr(0)), (Fr(1, 2), Fr(1, 2), Fr(1, 2)),  # outside / not summing to 1
+             # one weight exactly 1 (or 0) although the point is no corner (edge): outside the triangle, summing to 1
+             (Fr(1), H, -H), (Fr(1), -Q, Q), (H, Fr(1), -H), (-Q, Fr(1), Q), (H, -H, Fr(1)), (-Q, Q, Fr(1)),
+             (Fr(0), 3 * H, -H), (3 * H, Fr(0), -H), (-H, 3 * H, Fr(0))]
     CENTROID = (Fr(1.0 / 3.0), Fr(1.0 / 3.0), Fr(1.0 - 1.0 / 3.0 - 1.0 / 3.0))
 
     def rand_inside():
@@ -208,6 +211,8 @@ def main():
                 inside = [rand_inside() for _ in range(nv)]
                 inside[0] = rnd.choice([FIXED[0], FIXED[1], FIXED[2], inside[0]])
                 anyw = [rand_any() for _ in range(nv)]
+                if rnd.random() < 0.5:
+                    anyw[-1] = rnd.choice(FIXED[15:24])       # a weight exactly 1 or 0 off the triangle
                 add("eval", rnd.choice(HAZ), d, nodes, anyw, "T")
                 add("eval", rnd.choice(CLS), d, nodes, inside, "T", verify=True)
                 add("eval", rnd.choice(CLS), d, nodes, anyw, "T", verify=False)
